@@ -469,9 +469,11 @@ func (*Ufs) Create(req *SrvReq) {
 	}
 
 	if file == nil && e == nil {
-		// A new symbolic link (or a hard link to one) is not opened: the
-		// open would follow it and fail, after the fact, if it dangles.
-		if st, le := os.Lstat(path); le != nil || st.Mode()&os.ModeSymlink == 0 {
+		// Only a new directory or a new name of a regular file is opened. A
+		// symbolic link (or a hard link to one) would be followed and the open
+		// would fail, after the fact, if it dangles; so would the open of a
+		// hard link to a socket, and that of a FIFO waits for a peer.
+		if st, le := os.Lstat(path); le != nil || st.IsDir() || st.Mode().IsRegular() {
 			file, e = os.OpenFile(path, omode2uflags(tc.Mode), 0)
 		}
 	}
